@@ -50,7 +50,9 @@ def mk(qualname, ensures=(), dispatches=False, phase_owner=False, has_awaits=Fal
     """ensures: list of Clause | (name, text) ; Inv/Step are added as auxiliary ensures (used by callers) and are
     checked as obligations by the exit hook (with the tags of the running property)."""
     from pyvc.contracts import Clause
+    exit_relaxed = tuple(kw.pop("exit_relaxed", ()))
     c = conn_contract(qualname, **kw)
+    c.exit_relaxed = exit_relaxed
     cl = []
     for e in ensures:
         cl.append(e if isinstance(e, Clause) else Clause(e[0], e[1], "auxiliary"))
@@ -63,14 +65,14 @@ def mk(qualname, ensures=(), dispatches=False, phase_owner=False, has_awaits=Fal
     c.phase_owner = phase_owner
     c.has_awaits = has_awaits
     # entry->exit of a function with awaits includes what the environment (possibly a running connect phase) did
-    c.ensures = cl + [Clause(n, t, "auxiliary") for n, t, _ in inv_step_ensures(phase_owner or has_awaits)]
+    c.ensures = cl + [Clause(n, t, "auxiliary") for n, t, _ in inv_step_ensures(phase_owner or has_awaits) if n not in exit_relaxed]
     c.own_ensures = len(cl)
     # exceptional exits give callers the same Inv/Step/frame facts (they are obligations of the exit hook here)
     newr = {}
     for k, spec in (c.raises or {}).items():
         spec = {} if spec is True else ({"when": spec} if isinstance(spec, str) else dict(spec))
         have = {e[0] for e in spec.get("ensures", []) if isinstance(e, tuple)}
-        extra = [(n, t) for n, t, _k in inv_step_ensures(phase_owner or has_awaits) if n not in have]
+        extra = [(n, t) for n, t, _k in inv_step_ensures(phase_owner or has_awaits) if n not in have and n not in exit_relaxed]
         if not dispatches and "delivers-nothing" not in have:
             extra.append(("delivers-nothing", "ghost.dispatched == old(ghost.dispatched)"))
         extra.append(("entries-never-disappear", "implies(old(has_entry(self, q)), has_entry(self, q))"))
@@ -84,6 +86,7 @@ def mk(qualname, ensures=(), dispatches=False, phase_owner=False, has_awaits=Fal
 
 CLOSED = f"{S} is CS.CLOSED"
 LATE_CLOSE = ("I2-closed-released", "I4-timers-only-while-handshaken")
+MID_PHASE = LATE_CLOSE + ("I4-init-has-nothing",)
 
 
 def cleanup_contract():
@@ -92,7 +95,7 @@ def cleanup_contract():
         "_cleanup",
         # called from the connect phases' error handlers, where a close during the phase's last await may have left a timer armed on a closed
         # connection (the very state _cleanup repairs): its contract is proved without these two clauses of Inv
-        inv_relaxed=LATE_CLOSE,
+        inv_relaxed=MID_PHASE,
         ghost_params={"k": "int"},
         ensures=[
             P("C05", "closed", CLOSED),
@@ -633,7 +636,7 @@ CANCEL = {"CancelledError": {"kind": "auxiliary"}}
 
 def set_state_contract():
     c = mk(
-        "_set_connection_state", params={"state": f"enum[{cm.ST}]"}, inv_relaxed=LATE_CLOSE,
+        "_set_connection_state", params={"state": f"enum[{cm.ST}]"}, inv_relaxed=MID_PHASE,
         ensures=[P("C05", "state-and-flags-set-together", f"{S} is state and self.is_connected == (state is CS.CONNECTED) and "
                                                           "self._handshake_complete == (state is CS.HANDSHAKE_COMPLETE or state is CS.CONNECTED)"),
                  P("C05", "never-leaves-closed", f"implies(old({S}) is CS.CLOSED, state is CS.CLOSED)")],
@@ -680,14 +683,30 @@ def resolve_host_contract():
               raises={"APIConnectionError": {"kind": "property", "ensures": keep}, "CancelledError": {"kind": "auxiliary", "ensures": keep}}, tags=["C09"])
 
 
-def socket_connect_assumed():
-    """ASSUMED (not verified here): the TCP connect loop over aiohappyeyeballs.  Stated from its text: on return a
-    socket is attached; it raises only TimeoutAPIError / SocketAPIError (or is cancelled); it does not touch the state."""
+def socket_connect_contract():
+    """The TCP connect loop over aiohappyeyeballs (one attempt per remaining address family, 60 s each), then the socket options.
+    A-LIB(aiohappyeyeballs): start_connection returns a connected socket or raises OSError; pop_addr_infos_interleave shortens a
+    non-empty list."""
+    frame = ("own-frame", f"({S} is old({S}) or {S} is CS.CLOSED) and implies(old(self._frame_helper) is None, self._frame_helper is None)")
     return mk("_connect_socket_connect", params={"addrs": "obj[AddrList]"}, dispatches=True, phase_owner=True, has_awaits=True,
-              ensures=[("socket-attached", "self._socket is not None"),
-                       ("own-frame", f"({S} is old({S}) or {S} is CS.CLOSED) and implies(old(self._frame_helper) is None, self._frame_helper is None)")],
-              raises={"APIConnectionError": {"kind": "auxiliary", "ensures": [("own-frame", f"({S} is old({S}) or {S} is CS.CLOSED) and implies(old(self._frame_helper) is None, self._frame_helper is None)")]},
-                      "CancelledError": {"kind": "auxiliary", "ensures": [("own-frame", f"({S} is old({S}) or {S} is CS.CLOSED) and implies(old(self._frame_helper) is None, self._frame_helper is None)")]}}, tags=["C09"])
+              requires=[("no-socket-yet", "self._socket is None"), ("in-start-phase", "ghost.in_phase")],
+              # returns inside the start phase's atomic segment with the socket attached and the state not yet SOCKET_OPENED:
+              # start_connection advances the state before its next suspension point
+              exit_relaxed=("I4-init-has-nothing",),
+              ensures=[P("C05", "socket-attached", "self._socket is not None"), frame],
+              raises={"APIConnectionError": {"kind": "property", "tags": ["C09"],
+                                             "ensures": [("connect-failures-are-classified", "exact_type(exc, TimeoutAPIError) or exact_type(exc, SocketAPIError)"),
+                                                         ("no-socket-attached", "self._socket is None"), frame]},
+                      # a failing setsockopt/getpeername on the fresh socket: wrapped by start_connection (its own obligation), the socket is attached and released there
+                      "OSError": {"kind": "auxiliary", "ensures": [frame]},
+                      "CancelledError": {"kind": "auxiliary", "ensures": [frame, ("no-socket-attached", "self._socket is None")]}},
+              loops={"loop#1": dict(
+                  types={"sock": "opt[obj[Socket]]", "last_exception": "opt[exc[Exception]]"},
+                  invariant=["sock is None", "self._socket is None",
+                             "last_exception is None or typeof_is(last_exception, OSError)"] + loop_inv_step(),
+                  decreases="len(addr_infos)",
+                  modifies=all_mods())},
+              tags=["C05", "C09"])
 
 
 def init_frame_helper_contract():
@@ -975,7 +994,7 @@ def ALL():
     cs = [cleanup_contract(), report_fatal_error_contract(), send_messages_callee(), process_packet_contract(), ping_handler_contract(),
           time_handler_contract(), disconnect_handler_contract(), force_disconnect_contract(), send_keep_alive_contract(),
           pong_not_received_contract(), hello_resp_contract(), login_resp_contract(), make_connect_request_contract(), wrap_contract(),
-          handle_timeout_contract(), handle_complex_message_contract(), set_state_callee(), resolve_host_contract(), socket_connect_assumed(),
+          handle_timeout_contract(), handle_complex_message_contract(), set_state_callee(), resolve_host_contract(), socket_connect_contract(),
           init_frame_helper_contract(), hello_login_dispatch(), complex_dispatch(),
           callee_on_record("_process_hello_resp", "HelloResponse", hello_resp_contract, "hello_checked"),
           callee_on_record("_process_login_response", "ConnectResponse", login_resp_contract, "login_checked"), phase_contract("start"), phase_contract("finish"), single_response_contract(), disconnect_contract()]
